@@ -198,14 +198,38 @@ func runRace(prop, tier, name string, budget time.Duration) *WorkerResult {
 		budget = 10 * time.Second
 	}
 	share := budget / time.Duration(len(all)+1)
+	var viol *Violation
 	for _, sc := range all {
 		t0 := time.Now()
-		for i := 0; i < minRuns || time.Since(t0) < share; i++ {
+		for i := 0; (i < minRuns || time.Since(t0) < share) && viol == nil; i++ {
 			x := &Run{Vals: map[string]interface{}{}}
-			func() {
-				defer func() { _ = recover() }()
+			done := make(chan interface{}, 1)
+			go func() {
+				defer func() { done <- recover() }()
 				sc.Body(x)
 			}()
+			select {
+			case p := <-done:
+				// what a body finds wrong with its own results (failf) is a violation of the free-running pass too;
+				// panics are left to the controlled exploration, where they come with a schedule
+				_ = p
+				x.mu.Lock()
+				fail := x.Fail
+				x.mu.Unlock()
+				if fail != "" {
+					parts := strings.SplitN(fail, "|", 2)
+					viol = &Violation{Property: prop, Scenario: "race-pass", Clause: "free-running " + sc.Name + ": " + parts[0], Detail: parts[1],
+						Params: map[string]string{"engine": "race"}}
+				}
+			case <-time.After(30 * time.Second):
+				// real goroutines, real locks: a body that does not come back is a hang (deadlock or lost wake-up)
+				viol = &Violation{Property: prop, Scenario: "race-pass", Clause: "free-running " + sc.Name + ": hang",
+					Detail: "the body did not finish within 30 s on real goroutines (it takes milliseconds): a goroutine is blocked for good", Params: map[string]string{"engine": "race"}}
+				st.Executions++
+				st.Sample = append(st.Sample, sc.Name)
+				st.WallS = time.Since(start).Seconds()
+				return &WorkerResult{Scenario: "race-pass", Stats: st, Violation: viol}
+			}
 			x.cleanup()
 			st.Executions++
 			if i >= 20000 {
@@ -215,7 +239,7 @@ func runRace(prop, tier, name string, budget time.Duration) *WorkerResult {
 		st.Sample = append(st.Sample, sc.Name)
 	}
 	st.WallS = time.Since(start).Seconds()
-	return &WorkerResult{Scenario: "race-pass", Stats: st}
+	return &WorkerResult{Scenario: "race-pass", Stats: st, Violation: viol}
 }
 
 func replaySeq(v *Violation) int {
